@@ -6,10 +6,11 @@ import Driver.OpsHistory
 import Driver.OpsLearn
 import Driver.OpsScore
 import Driver.OpsSearch
+import Driver.OpsJT
 open Lean PgmVerif PgmVerif.Drv
 
 def handlers : List (String → Json → Option (Except String Json)) :=
-  [handleFactor, handleCPD, handleGraph, handleHistory, handleLearn, handleScore, handleSearch]
+  [handleFactor, handleCPD, handleGraph, handleHistory, handleLearn, handleScore, handleSearch, handleJT]
 
 def handle (op : String) (j : Json) : Except String Json :=
   match handlers.findSome? (fun h => h op j) with
